@@ -443,7 +443,7 @@ EXT_INT_CANDS = [2 ** 31 - 1, 2 ** 31, 2 ** 32 - 1, 2 ** 32, 2 ** 32 + 1, 2 ** 4
                  -2 ** 32, 2 ** 63 - 1, 1099511627776, 12]
 EXT_VALUES = {
     "integer": [str(v) for v in (2 ** 31 - 1, 2 ** 31, 2 ** 32 - 1, 2 ** 32, 2 ** 32 + 1, 2 ** 40 + 3, -2 ** 31, -2 ** 31 - 1, -1, 0, 2 ** 63 - 1,
-                                 -2 ** 32)] + ["007", "-0", "00000000004294967296", "99999999999999999999"],
+                                 -2 ** 32, -2 ** 63)] + ["007", "-0", "00000000004294967296", "99999999999999999999"],
     "float": ["1.5", "-0.0", "0.0", "4294967296.0", "2147483648.5", "-1.25", "123456789012345678.0", "7."],
     "boolean": ["true", "false"],
     "string": ["", "0x10", "1e3", "1e10", "12abc", "abc", "-", "1.2.3", ".5", "TRUE", "4294967296x", " 7", "-1e3", "tru"],
@@ -451,14 +451,22 @@ EXT_VALUES = {
 EXT_PLACEHOLDER = {"integer": "1", "float": "0.5", "boolean": None, "string": "placeholder"}
 
 
+def ext_int_cands():
+    vals = set(EXT_INT_CANDS)
+    for t in EXT_VALUES["integer"]:
+        if -2 ** 63 <= int(t) <= 2 ** 63 - 1:
+            vals.add(int(t))
+    return sorted(vals)
+
+
 def ext_value_rules(kind):
     lit = lambda v: "(%d)" % v if v >= 0 else "(-%d)" % -v if v > -2 ** 63 else "(-9223372036854775807 - 1)"
     if kind == "integer":
         r = ['import "console"', 'rule show { condition: console.log("v=", v) }', "rule gt_u32 { condition: v > 4294967295 }",
              "rule gt_i32 { condition: v > 2147483647 }", "rule negative { condition: v < 0 }", "rule odd { condition: v % 2 == 1 or v % 2 == -1 }"]
-        for i, c in enumerate(EXT_INT_CANDS):
+        for i, c in enumerate(ext_int_cands()):
             r.append("rule eq_%d { condition: v == %s }" % (i, lit(c)))
-            r.append("rule half_%d { condition: v \\ 2 == %s }" % (i, lit(int(c / 2))))
+            r.append("rule half_%d { condition: v \\ 2 == %s }" % (i, lit(abs(c) // 2 * (1 if c >= 0 else -1))))
         return "\n".join(r) + "\n"
     if kind == "float":
         return ('import "console"\nrule show { condition: console.log("v=", v) }\nrule eq_1_5 { condition: v == 1.5 }\n'
@@ -482,6 +490,8 @@ def external_value_runs(chk, yara, yarac, tmp, HANG_S):
         open(os.path.join(d, "dir", "f%d.txt" % i), "w").write("file %d\n" % i)
     n = 0
     classes = {}
+    inexact = []      # integer externals are int64: `-d v=<decimal that fits in int64>` must define exactly that value
+    cands = ext_int_cands()
     for kind, values in EXT_VALUES.items():
         rules = os.path.join(d, "ext_%s.yar" % kind)
         open(rules, "w").write(ext_value_rules(kind))
@@ -521,8 +531,33 @@ def external_value_runs(chk, yara, yarac, tmp, HANG_S):
                                    "forms": [{"form": f, "exit": rc, "stdout": [x.replace(d, "<d>") for x in lines[:40]], "stderr": err}
                                              for f, rc, lines, err in res]})
                 outs[tname] = res[0][2]
+                if kind == "integer" and -2 ** 63 <= int(val) <= 2 ** 63 - 1:
+                    want_v, want_rule = "v=%d" % int(val), "eq_%d " % cands.index(int(val))
+                    for (fname, rc, lines, err), (_, cmd) in zip(res, forms):
+                        if rc != 0 or want_v not in lines or not any(l.startswith(want_rule) for l in lines):
+                            inexact.append({"value": val, "expected": int(val), "form": fname, "target": tname, "exit": rc,
+                                            "printed": [l for l in lines if l.startswith("v=")][:1],
+                                            "rule_v_eq_value_matched": any(l.startswith(want_rule) for l in lines),
+                                            "cmd": [os.path.basename(cmd[0])] + [c.replace(d, "<d>") for c in cmd[1:]],
+                                            "yarac_cmd": (["yarac", "-d", "v=" + (val if fname.endswith("yarac") else ph), "<d>/ext_integer.yar", "<out>"]
+                                                          if "compiled" in fname else None),
+                                            "stdout": [x.replace(d, "<d>") for x in lines[:12]], "stderr": err})
             classes.setdefault(kind, []).append((val, [l for l in outs["single file"] if l.startswith("v=")][:1]))
-    chk.note(external_values=dict(runs=n, values={k: len(v) for k, v in EXT_VALUES.items()},
+    if inexact:
+        vals = []
+        for x in inexact:
+            if x["value"] not in vals:
+                vals.append(x["value"])
+        ex = inexact[0]
+        chk.violation("external-value-exact:int64",
+                      "`-d v=<integer>` does not define the int64 value written: %d value(s) wrong (%s) in form(s) %s; e.g. `%s` prints %s and "
+                      "`rule { condition: v == %d }` %s (integer externals are 64-bit everywhere else: literal, constant expression, "
+                      "yr_*_define_integer_variable)"
+                      % (len(vals), ", ".join(vals[:12]), sorted(set(x["form"] for x in inexact)), " ".join(ex["cmd"][:5]), ex["printed"] or "nothing",
+                         ex["expected"], "matches" if ex["rule_v_eq_value_matched"] else "does not match"),
+                      {"kind": "external-value-exact", "rules": open(os.path.join(d, "ext_integer.yar")).read(), "wrong": inexact[:60],
+                       "values_wrong": vals})
+    chk.note(external_values=dict(runs=n, int64_values_checked_for_exactness=sum(1 for t in EXT_VALUES["integer"] if -2 ** 63 <= int(t) <= 2 ** 63 - 1), values={k: len(v) for k, v in EXT_VALUES.items()},
                                   observed_conversion={k: ["%s -> %s" % (a, (b[0] if b else "-")) for a, b in v] for k, v in classes.items()}))
     return n
 
